@@ -173,7 +173,23 @@ def nested_programs(tier, hi):
               ("chain", ("proj", ("join", ("sel", X, K), Z, None), ("a", "b", "v")), X), ("dedup", ("chain", JX, ("chain", X, Y))),
               ("chain", ("proj", ("join", ("join", X, Z, None), ("sel", W, ("lt", A, B)), None), ("a", "b", "v")), X),
               ("chain", ("proj", ("join", X, Z, ("lt", B, D)), ("a", "b", "v")), X)]
-    return [(p, {"$k": [None, None]} if "$k" in repr(p) else {}, []) for p in progs]
+    # sorts composed with sorts (stable composition), with and without a slice in between, same columns in other directions / precedence
+    TOT2 = ((V, False), (B, True), (A, False))
+    TOT3 = ((A, False), (B, False), (V, True))
+    S1 = ("sort", X, ((B, True), (V, False)))
+    progs += [("slice", ("sort", S1, ((A, True),)), 0, 1), ("slice", ("sort", S1, ((A, False),)), 1, 2), ("sort", S1, ((A, True),)),
+              ("slice", ("sort", ("sel", S1, K), ((A, True),)), 0, 1), ("slice", ("sort", ("dedup", S1), ((A, False),)), 0, 1),
+              ("sort", ("slice", ("sort", X, TOT), 0, 1), TOT2), ("sort", ("slice", ("sort", X, TOT), 1, 2), TOT3),
+              ("slice", ("sort", ("slice", ("sort", X, TOT), 0, 2), TOT3), 0, 1), ("slice", ("sort", ("sort", X, TOT), TOT2), 0, 1),
+              ("slice", ("sort", ("sort", X, TOT), TOT3), 1, 2), ("sort", ("sort", X, ((A, True),)), ((B, False), (V, True))),
+              ("slice", ("sort", ("sort", X, ((A, True),)), ((B, False), (V, True))), 0, 1),
+              ("slice", ("sort", ("sort", ("sort", X, ((V, True),)), ((B, True),)), ((A, False),)), 0, 1)]
+    out = [(p, {"$k": [None, None]} if "$k" in repr(p) else {}, []) for p in progs]
+    W2 = ("slice", ("sort", X, TOT), "$s1", "$e1")
+    for top in (TOT2, TOT3):
+        out.append((("sort", W2, top), {"$s1": [0, hi], "$e1": [0, hi]}, [["$s1", "$e1"]]))
+        out.append((("slice", ("sort", W2, top), "$s2", "$e2"), {"$s1": [0, hi], "$e1": [0, hi], "$s2": [0, hi], "$e2": [0, hi]}, [["$s1", "$e1"], ["$s2", "$e2"]]))
+    return out
 
 
 def setup_leaves(ctx, env, prog, n):
